@@ -1,30 +1,4 @@
 ----------------------------- MODULE MCTrieSync -----------------------------
-(* TrieSync bound to a built-in target, for model checking independent of the Go harness:    *)
-(* an account trie  root(1) -> branch(2) -> {leaf a (3), leaf b (4)},  leaf c (5) under the   *)
-(* root; a and c share one code; a has a storage trie root(6) -> {7, 8}, b has the storage     *)
-(* trie 9 which has the same hash as node 7 (identical subtries at two places).  Location 10  *)
-(* lies inside the key of the short node 1 -> 2 and may hold an outdated node; outdated nodes  *)
-(* may also sit at 2, 6 and 9.                                                                *)
-EXTENDS MCTrieSyncBase
-
-CONSTANT Small     \* TRUE: a's storage trie is the single node 6 (locations 7, 8 unused)
-WScheme == "path"
-WNumLocs == 10
-WLocPath == << <<>>, <<1, 1>>, <<1, 1, 0>>, <<1, 1, 1>>, <<7>>,
-               [i \in 1..64 |-> IF i <= 3 THEN <<1, 1, 0>>[i] ELSE 5],
-               [i \in 1..65 |-> IF i <= 3 THEN <<1, 1, 0>>[i] ELSE IF i = 65 THEN 2 ELSE 5],
-               [i \in 1..65 |-> IF i <= 3 THEN <<1, 1, 0>>[i] ELSE IF i = 65 THEN 9 ELSE 5],
-               [i \in 1..64 |-> IF i <= 3 THEN <<1, 1, 1>>[i] ELSE 5],
-               <<1>> >>
-WTarget == IF Small THEN <<101, 102, 103, 104, 105, 106, 0, 0, 107, 0>> ELSE <<101, 102, 103, 104, 105, 106, 107, 108, 107, 0>>
-WKids == << <<2, 5>>, <<3, 4>>, <<>>, <<>>, <<>>, IF Small THEN <<>> ELSE <<7, 8>>, <<>>, <<>>, <<>>, <<>> >>
-WInner == << {10}, {}, {}, {}, {}, {}, {}, {}, {}, {} >>
-NoSub == [root |-> 0, code |-> 0, leaf |-> FALSE]
-WSub == << NoSub, NoSub, [root |-> 6, code |-> 1, leaf |-> TRUE], [root |-> 9, code |-> 0, leaf |-> TRUE],
-           [root |-> 0, code |-> 1, leaf |-> TRUE], NoSub, NoSub, NoSub, NoSub, NoSub >>
-WBlobSize == <<70, 83, 104, 104, 105, 83, 40, 41, 40, 0>>
-WStale == <<0, 202, 0, 0, 0, 206, 0, 0, 209, 210>>
-WRootLoc == 1
-WNumCodes == 1
-WCodeSize == <<20>>
+(* TrieSync (with command history) bound to the built-in target of TrieSyncStatic.tla. *)
+EXTENDS MCTrieSyncBase, TrieSyncStatic
 =============================================================================
